@@ -88,9 +88,10 @@ func walkAttributes(elem *etree.Element) {
 		} else if y.Space == "xmlns" && x.Space != "xmlns" {
 			return false
 		}
-		// then order by namespace and finally by key
-		if x.Space != y.Space {
-			return x.Space < y.Space
+		// then order by namespace URI (not by the prefix bound to it) and
+		// finally by key
+		if xs, ys := attrNamespace(elem, x), attrNamespace(elem, y); xs != ys {
+			return xs < ys
 		}
 		return x.Key < y.Key
 	})
@@ -108,6 +109,26 @@ func walkAttributes(elem *etree.Element) {
 		}
 		i++
 	}
+}
+
+// namespace URI that an attribute's prefix is bound to at this element;
+// attributes without a prefix are in no namespace
+func attrNamespace(elem *etree.Element, attr etree.Attr) string {
+	switch attr.Space {
+	case "":
+		return ""
+	case "xml":
+		return "http://www.w3.org/XML/1998/namespace"
+	}
+	for e := elem; e != nil; e = e.Parent() {
+		for _, decl := range e.Attr {
+			if decl.Space == "xmlns" && decl.Key == attr.Space {
+				return decl.Value
+			}
+		}
+	}
+	// undeclared prefix
+	return attr.Space
 }
 
 // does this element or its attributes reference the given namespace?
